@@ -85,6 +85,12 @@ _RECOGNISE = {
     math.sqrt(2) / 2: (Fraction(1, 2), "SQRT2", 1),
     math.log(math.sqrt(2 * math.pi)): (Fraction(1), "LOG_SQRT_2PI", 1),
     1 / math.sqrt(2 * math.pi): (Fraction(1), "INV_SQRT_2PI", 1),
+    math.sqrt(2 * math.pi): (Fraction(1), "INV_SQRT_2PI", -1),
+    math.sqrt(0.5): (Fraction(1, 2), "SQRT2", 1),
+    2 * math.sqrt(2): (Fraction(2), "SQRT2", 1),
+    0.5 * math.log(2 * math.pi): (Fraction(1), "LOG_SQRT_2PI", 1),
+    math.log(2 * math.pi) / 2: (Fraction(1), "LOG_SQRT_2PI", 1),
+    math.pi / 2: (Fraction(1, 2), "PI", 1),
     1 / 3: None,  # handled as exact 1/3 below
 }
 RECOGNISED_LOG = set()
@@ -110,11 +116,12 @@ def const(x) -> T:
         if k is not None:
             RECOGNISED_LOG.add("log(%d)" % k)
             return _mk("app", (_mk("const", val=Fraction(k)),), "log")
-        r = _RECOGNISE.get(x)
+        r = _RECOGNISE.get(abs(x))
         if r is not None:
             coef, name, e = r
             RECOGNISED_LOG.add(name)
-            return scale(named(name), coef)
+            base = named(name) if e == 1 else powi(named(name), e)
+            return scale(base, coef if x > 0 else -coef)
         x = Fraction(x)
     elif not isinstance(x, Fraction):
         x = Fraction(x)
@@ -269,6 +276,17 @@ def _from_mono(k: Fraction, f: dict) -> T:
         dd[inv] += 2
         dd[pi] += 1
         k *= 2
+    # product of exponentials: exp(u)^a * exp(w)^b = exp(a*u + b*w) (one exponential atom per monomial; constant arguments stay
+    # split off, as exp() itself splits them)
+    exps = [(g, e) for g, e in dd.items() if e != 0 and g.op == "app" and g.val == "exp" and g.args[0].op != "const"]
+    if len(exps) >= 2 or (len(exps) == 1 and exps[0][1] != 1):
+        for g, _ in exps:
+            del dd[g]
+        merged = exp(add(*[scale(g.args[0], e) for g, e in exps]))
+        k2, f2 = _mono(merged) if not (merged.op == "add" and not (merged.val[0] == 0 and len(merged.args) == 1)) else (Fraction(1), {merged: 1})
+        k *= k2
+        for g, e in f2.items():
+            dd[g] = dd.get(g, 0) + e
     items = [(g, e) for g, e in dd.items() if e != 0]
     if not items:
         return _mk("const", val=k)
@@ -508,6 +526,9 @@ def exp(u) -> T:
             factors.append(powi(named("INV_SQRT_2PI"), -int(k)))
         elif m.op == "app" and m.val == "log" and k.denominator == 1:
             factors.append(powi(m.args[0], int(k)))
+        elif m.op == "app" and m.val == "log" and k.denominator in (2, 3):
+            # exp(k*log(w)) = w ** k on the domain of log (w > 0): the same term as w.pow(k)
+            factors.append(pow_(m.args[0], k))
         else:
             rest[m] = k
     if c != 0 and rest:
@@ -519,12 +540,58 @@ def exp(u) -> T:
     return mul(exp(r), *factors)
 
 
+def _exp_split(m: T):
+    """monomial m = k * exp(w) * rest  ->  (w, k*rest), or None if m has no exponential factor with a non-constant argument"""
+    k, f = _mono(m)
+    for g, e in f.items():
+        if e == 1 and g.op == "app" and g.val == "exp" and g.args[0].op != "const":
+            rest = dict(f)
+            del rest[g]
+            return g.args[0], _from_mono(k, rest)
+    return None
+
+
 def log(u) -> T:
     u = const(u)
     if u.op == "const" and u.val == 1:
         return ZERO
+    if u.op == "const" and u.val > 0 and u.val.denominator != 1:
+        # log(p/q) = log(p) - log(q): logarithms of constants are atoms over integers only
+        return sub(log(const(u.val.numerator)), log(const(u.val.denominator)))
     if u.op == "app" and u.val == "exp":
         return u.args[0]
+    if u.op == "add" and u.val[0] == 0 and len(u.args) == 1 and u.val[1][0] > 0 and u.val[1][0] != 1:
+        # log(k*m) = log(k) + log(m) for a rational k > 0 (both sides are defined exactly when m > 0)
+        return add(log(const(u.val[1][0])), log(u.args[0]))
+    proper_sum = u.op == "add" and not (u.val[0] == 0 and len(u.args) == 1)
+    if not proper_sum and u.op != "const":
+        # log(exp(w) * rest) = w + log(rest)   (both sides are defined exactly when rest > 0)
+        sp = _exp_split(u)
+        if sp is not None:
+            return add(sp[0], log(sp[1]))
+    if proper_sum and u.val[0] == 0:
+        # log(sum_i c_i exp(w_i) r_i) = w_* + log(sum_i c_i exp(w_i - w_*) r_i): one representative for all forms that differ by a common
+        # shift of the exponents (log-sum-exp with and without the subtracted maximum).  The reference w_* is chosen by a key that is
+        # invariant under a common shift (the differences w_i - w_*).
+        parts = []
+        for m, c in zip(u.args, u.val[1]):
+            sp = _exp_split(m)
+            if sp is None:
+                parts = None
+                break
+            parts.append((sp[0], scale(sp[1], c)))
+        if parts:
+            best = None
+            for r, (wr, _) in enumerate(parts):
+                key = tuple(sorted(sub(w, wr).id for w, _ in parts))
+                if best is None or key < best[0]:
+                    best = (key, r)
+            wr, rr = parts[best[1]]
+            inner = add(*[mul(exp(sub(w, wr)), rest) for w, rest in parts])
+            if rr.op == "const" and rr.val > 0 and rr.val != 1:
+                # the reference summand carries a positive rational weight k: log(k*(1 + ...)) = log(k) + log(1 + ...)
+                return add(wr, log(rr), log(scale(inner, 1 / rr.val)))
+            return add(wr, log(inner))
     return _mk("app", (u,), "log")
 
 
@@ -545,19 +612,38 @@ def cbrt(u) -> T:
     return _mk("app", (u,), "cbrt")
 
 
+def _negative_lead(u: T) -> bool:
+    """canonical sign of an argument: is the leading coefficient of u negative?  (exactly one of u, -u answers yes, unless u = 0)"""
+    if u.op == "const":
+        return u.val < 0
+    if u.op == "add":
+        c0, coefs = u.val
+        return (coefs[0] if coefs else c0) < 0
+    return False
+
+
 def Phi(u) -> T:
     u = const(u)
     if u.op == "const" and u.val == 0:
         return const(Fraction(1, 2))
+    if _negative_lead(u):
+        # Phi(-w) = 1 - Phi(w): one representative per pair of arguments (so that 1 - Phi(-x), erfc forms and Phi(x) coincide)
+        return sub(ONE, _mk("app", (neg(u),), "Phi"))
     return _mk("app", (u,), "Phi")
 
 
 def cos(u) -> T:
-    return _mk("app", (const(u),), "cos")
+    u = const(u)
+    if _negative_lead(u):
+        u = neg(u)
+    return _mk("app", (u,), "cos")
 
 
 def sin(u) -> T:
-    return _mk("app", (const(u),), "sin")
+    u = const(u)
+    if _negative_lead(u):
+        return neg(_mk("app", (neg(u),), "sin"))
+    return _mk("app", (u,), "sin")
 
 
 def floor(u) -> T:
